@@ -307,7 +307,22 @@ def run_cases(ck: Check, n: int):
         grid = make_grid(rng, kinds[i % len(kinds)])
         cls = rng.choice([c for c in CLASSES if compatible(c, grid)])
         d = make_droplet(rng, cls, grid, on_cell_centre=(rng.random() < 0.25))
+        twin = None
+        if type(grid).__name__ == "CartesianGrid" and i % 3 == 0:
+            # the same droplet rendered on a TWIN grid first: same shape and bounds, other periodicity (a picture must not depend
+            # on what was rendered before - caches keyed by an incomplete description of the grid)
+            from pde import CartesianGrid
+
+            tper = [not p for p in grid.periodic] if rng.random() < 0.5 else [rng.random() < 0.5 for _ in grid.periodic]
+            twin = CartesianGrid(grid.axes_bounds, grid.shape, periodic=tper)
+            try:
+                d.get_phase_field(twin)
+            except Exception:  # noqa: BLE001  (only the rendering on `grid` is judged here)
+                pass
+            ck.count("rendered_on_twin_grid_first")
         check_field(ck, d, grid, reqs, expect)
+        if twin is not None and list(twin.periodic) != list(grid.periodic):
+            check_field(ck, d, twin, reqs, expect)
         if len(ck.samples) < 3 and cls.startswith("Perturbed"):
             ck.sample({"class": cls, "grid": repr(grid), "droplet": str(d)})
     # corpus: 3-D perturbed droplets centred exactly on a cell centre (zero distance: angle undefined)
